@@ -58,7 +58,7 @@ func (e *simEnv) option() rueidis.ClientOption {
 		PipelineMultiplex: -1,
 	}
 	opt.Dialer.KeepAlive = time.Hour
-	opt.Dialer.Timeout = time.Second
+	opt.Dialer.Timeout = time.Minute
 	return opt
 }
 
